@@ -2,28 +2,38 @@ package main
 
 import (
 	"fmt"
-	"path/filepath"
-	"time"
 
 	. "verifharness/lib"
 )
 
 func main() {
-	bin, _, err := BuildPlugins()
-	if err != nil {
-		panic(err)
+	run := NewRun("SMOKE", nil)
+	run.Prepare()
+	reqs := FeatureCatalogue()
+	s := NewSession(run, reqs)
+	for i, r := range reqs {
+		g := s.Gens[i]
+		fmt.Print(r.ID, ": ")
+		for _, p := range Plugins {
+			x := g.Results[p]
+			fmt.Print(p, "=", x.Exit, "(", len(x.Names), ") ")
+			if x.Exit != "ok" {
+				fmt.Print(x.Error, " ")
+			}
+		}
+		fmt.Println()
 	}
-	pkg := "rec.v1"
-	f := &File{Messages: []*Message{M("Node", F("v", 1, "string"), F("next", 2, "", Msg(pkg+".Node"))), M("Req", F("id", 1, "string"))}}
-	f.Services = []*Service{Svc("S", "/s", RPC("Get", pkg+".Req", pkg+".Node", "POST", "/g"))}
-	r := OneFile("rec", pkg, f)
-	b, err := BuildDescriptors(r)
-	if err != nil {
-		panic(err)
+	s.BuildRuntime(true)
+	for _, r := range reqs {
+		if v := s.Verdict[r.ID]; v != nil {
+			o := v.Output
+			if len(o) > 400 {
+				o = o[:400]
+			}
+			fmt.Println(r.ID, "build", v.Build, "vet", v.Vet, o)
+		} else {
+			fmt.Println(r.ID, "not built")
+		}
 	}
-	for _, mem := range []int{1024, 4096} {
-		t := time.Now()
-		res := RunPlugin(filepath.Join(bin, "protoc-gen-go-http"), "go-http", MakeCGR(b.All, ToGenerate(r), "paths=source_relative,generate_mock=true"), 15*time.Second, mem)
-		fmt.Println(mem, res.Exit, res.Error, time.Since(t), res.MaxRSSKB, len(res.Stderr), res.Stderr[:min(300, len(res.Stderr))])
-	}
+	run.Cleanup()
 }
